@@ -24,6 +24,14 @@ def run(chk: core.Check, replay=None) -> None:
     core.use_repo()
     thorough = chk.tier == "thorough"
     loopsuite.design(chk, "C12")
+    # unbounded design-level safety of the sock (arbitrary integer segment ends and reading positions) as an inductive
+    # invariant with Apalache (~4 s per obligation; the quick tier runs it too), and its deviation refuted
+    core.apalache(chk, "SockInd", [(("--init=Init", "--inv=IndInv", "--length=0"), "ok"),
+                                   (("--init=InitInd", "--inv=IndInv", "--length=1"), "ok"),
+                                   (("--init=InitInd", "--inv=SegmentCorrect", "--length=0"), "ok"),
+                                   (("--init=InitInd", "--inv=CursorMonotone", "--length=0"), "ok"),
+                                   (("--init=Init", "--next=NextIf", "--inv=SegmentCorrect", "--length=3"), "violation")],
+                  "Apalache inductive invariant SockInd (3 segments, unbounded ends and positions)")
     lattice.replay(chk, "C12", thorough)          # exact spec -> code replay of whole fire() results
     behs = loopsuite.gen_behaviours(chk, 2000 if thorough else 300, chk.seed + 12)
     loopsuite.object_replay(chk, "C12", behs)
